@@ -150,4 +150,24 @@ def dropMany (g : Nat) (is : List Nat) (prog : Prog) : Prog := is.foldl (fun pr 
 
 def eraseMany {α : Type} (is : List Nat) (l : List α) : List α := is.foldl (fun acc i => acc.eraseIdx i) l
 
+/-- One eliminated parameter of `g`: classified `Unused`, or the constant `n`. -/
+inductive Elim where
+  | unused (i : Nat)
+  | const (i : Nat) (n : Int)
+deriving Repr, DecidableEq
+
+def Elim.idx : Elim → Nat
+  | .unused i => i
+  | .const i _ => i
+
+def elimStep (g : Nat) (params : List Name) (prog : Prog) : Elim → Prog
+  | .unused i => dropParam g i prog
+  | .const i n => substParam g i (params[i]?.getD 0) n prog
+
+/-- The whole sweep of `rewrite_sources` over the parameters of `g` (highest index first): unused
+parameters are dropped, constant ones substituted and dropped. `params` = current parameter list of `g`. -/
+def elimMany (g : Nat) : List Elim → List Name → Prog → Prog
+  | [], _, prog => prog
+  | e :: rest, params, prog => elimMany g rest (params.eraseIdx e.idx) (elimStep g params prog e)
+
 end SamVerif.CpeProg
